@@ -108,13 +108,31 @@ int lha_arch_utime(char *f, unsigned int t) { (void) f; (void) t; return 1; }
 LHAFileType lha_arch_exists(char *f) { (void) f; return LHA_FILE_NONE; }
 int lha_arch_symlink(char *p, char *t) { (void) p; (void) t; return fs_next_ok; }
 int lha_arch_is_symlink(char *p) { (void) p; return 0; }   // the stub file system has no links in directory positions
+// the output file is a cookie stream: the harness sees whether the library closed it (a handle the library opened must be closed
+// by the library on every path) and collects what was written
+static int fs_open_handles;
+static ssize_t fsck_write(void *cookie, const char *buf, size_t n)
+{
+	int was = trk_on;
+	(void) cookie;
+	trk_on = 0;
+	fs_buf = realloc(fs_buf, fs_len + n + 1);
+	memcpy(fs_buf + fs_len, buf, n);
+	fs_len += n;
+	trk_on = was;
+	return (ssize_t) n;
+}
+static int fsck_close(void *cookie) { (void) cookie; --fs_open_handles; return 0; }
 FILE *lha_arch_fopen(char *filename, int uid, int gid, int perms)
 {
 	int was = trk_on;
+	cookie_io_functions_t io = { NULL, fsck_write, NULL, fsck_close };
 	(void) filename; (void) uid; (void) gid; (void) perms;
 	if (!fs_next_ok) return NULL;
 	trk_on = 0;
-	fs_file = open_memstream(&fs_buf, &fs_len);
+	fs_buf = malloc(1); fs_len = 0;
+	fs_file = fopencookie(NULL, "w", io);
+	if (fs_file != NULL) ++fs_open_handles;
 	trk_on = was;
 	return fs_file;
 }
@@ -242,6 +260,12 @@ static void rctx_step(RCtx *c, const char *tok)
 		fs_next_ok = tok[1] != '0';
 		fs_file = NULL; fs_buf = NULL; fs_len = 0;
 		trk_on = 1; r = lha_reader_extract(reader, NULL, NULL, NULL); trk_on = 0;
+		if (fs_open_handles != 0) {
+			// the library returned with the output file still open
+			vh_out("HANDLE-LEAK:");
+			if (fs_file != NULL) fclose(fs_file);
+			fs_open_handles = 0;
+		}
 		vh_out("x%d", r != 0);
 		if (fs_buf != NULL && !c->cur_is_file) { free(fs_buf); fs_buf = NULL; }
 		if (fs_buf != NULL) {
